@@ -117,7 +117,87 @@ def run(R):
 
 
 def tie(R, g):
-    return []
+    """model vs implementation: (a) replace_patch_headers on real diffy patches of generated text pairs,
+    including diff-like lines; (b) diffy parse of the rewritten patch; (c) undo_core on real apply results."""
+    dis = []
+    hp, hlog = core.build_harness()
+    mp, mlog = core.build_model()
+    if hp is None or mp is None:
+        return [{"why": "harness or model driver does not build", "log": (hlog + mlog)[-2000:]}]
+    H, M = core.Harness([str(hp)]), core.Model([str(mp)])
+    r = g.r
+    n = 150 if R.tier == "quick" else 4000
+    names = ["a.txt", "dir/b c.sql", "x/y/z.rs", "café.md", "we\"ird.txt", "tab\tname", "back\\slash", "-- dash.sql", "+++ plus"]
+    for i in range(n):
+        a, b2 = g.term_pair()
+        before = g.content(a, nlines=r.randint(0, 7), p_match=0.6)
+        s, nn = gen.render(a, "Snake").encode(), gen.render(b2, "Snake").encode()
+        after = before.replace(s, nn).replace(gen.render(a, "Camel").encode(), gen.render(b2, "Camel").encode())
+        frm, to = r.choice(names), r.choice(names)
+        d0 = H.ask({"op": "diffy", "a": core.hx(after), "b": core.hx(before)})
+        if "text" not in d0:
+            continue
+        text = bytes.fromhex(d0["text"])
+        ph = H.ask({"op": "patch_headers", "patch": core.hx(text), "from": core.hx(frm), "to": core.hx(to)})
+        impl = bytes.fromhex(ph["ok"]) if "ok" in ph else None
+        m = M.ask("rewrite_headers", frm.encode(), to.encode(), text)
+        mod = core.atom_bytes(m) if isinstance(m, str) and m.startswith("x") else None
+        R.case(("hdr", before, after, frm, to), nontrivial=(before != after))
+        if impl != mod:
+            dis.append({"why": "replace_patch_headers differs from the model", "patch": text.decode("utf-8", "replace"),
+                        "from": frm, "to": to, "impl": repr(impl)[:600], "model": repr(mod)[:600]})
+            continue
+        # (b) parse + apply of the rewritten patch on the implementation; model predicts whether the header parses
+        d1 = H.ask({"op": "diffy", "a": core.hx(after), "b": core.hx(before), "from": core.hx(frm), "to": core.hx(to)})
+        mb = M.ask("diffy_body", impl)
+        model_parses = isinstance(mb, list) and mb and mb[0] == "some"
+        impl_parses = not (d1.get("ok") is False and d1.get("stage") == "parse")
+        if model_parses != impl_parses:
+            dis.append({"why": "diffy header parsing differs from the model", "from": frm, "to": to,
+                        "impl": {k: d1.get(k) for k in ("ok", "stage", "msg")}, "model_parses": model_parses})
+        elif impl_parses and d1.get("ok") is not True:
+            dis.append({"why": "oracle hypothesis Hdiff fails: diffy does not invert its own patch", "from": frm, "to": to,
+                        "a": after.decode("utf-8", "replace"), "b": before.decode("utf-8", "replace"),
+                        "impl": {k: d1.get(k) for k in ("ok", "stage", "msg")}})
+    # (c) undo_core vs the real undo
+    for i in range(8 if R.tier == "quick" else 120):
+        tree, search, replace = scenario(g, i * 3)   # i*3: includes the nested-directory family
+        if replace == "":
+            continue
+        with cli.Sandbox(tree) as sb:
+            before_entries = sb.tree_entries()
+            rc, o, e = sb.run(["--no-auto-init", "-y", "rename", search, replace])
+            if rc != 0:
+                continue
+            hist = sb.history() or []
+            if not hist or hist == "UNPARSABLE":
+                continue
+            pid = hist[-1]["id"]
+            try:
+                plan = al.relativize(json.loads((sb.root / ".renamify" / "plans" / f"{pid}.json").read_text()), sb.root)
+            except Exception:
+                continue
+            mid_entries = sb.tree_entries()
+            rc2, o2, e2 = sb.run(["--no-auto-init", "-y", "undo", pid])
+            real = al.tree_dict(sb.tree_entries())
+            orig = al.tree_dict(before_entries)
+            rs = [[al.split_path(x["path"]), al.split_path(x.get("new_path", "")), x["kind"] == "dir"] for x in plan["paths"]]
+            patched = sorted({(h.get("original_file") or h["file"]) for h in plan["matches"] if h.get("patch_hash")})
+            restore = [[al.split_path(p), ["some", orig[p][2]] if p in orig and orig[p][0] == "f" else None] for p in patched]
+            created = [al.split_path(al.relativize({"matches": [], "paths": [{"path": d, "kind": "dir"}]}, sb.root)["paths"][0]["path"])
+                       for d in (plan.get("created_directories") or [])]
+            m = M.ask("undo_core", rs, restore, created, al.fs_sx([x for x in mid_entries]))
+            R.case(("undo_core", search, replace, repr(sorted(orig))), nontrivial=bool(rs))
+            if not isinstance(m, list) or m[0] not in ("true", "false"):
+                dis.append({"why": "undo model error", "resp": repr(m)[:300]})
+                continue
+            mfs = al.user_only(al.fs_from_sx(m[1]))
+            if (m[0] == "true") != (rc2 == 0) or mfs != real:
+                dis.append({"why": "undo_core differs from the real undo", "model_ok": m[0], "undo_rc": rc2,
+                            "diff": repr(al.diff_dict(mfs, real)), "tree": cli.tree_json(tree), "search": search, "replace": replace})
+    H.close()
+    M.close()
+    return dis
 
 
 def replay(R, obj):
